@@ -13,9 +13,9 @@ RULE = ("layout = one partition's log, written through the public Database API: 
         "Second family (lv): the watermark is built LIVE. The log is written with (mostly) count-0 events (a third of the scenarios with a confirmed prefix already on disk), the node is started, "
         "and ConfirmTransaction messages - the path a coordinator's confirmation takes on a replica: on-disk count, then the report to the ConfirmationActor - are delivered to the running "
         "ClusterActor: per transaction nothing at all (write failed quorum), only a sub-quorum count, one quorum count, an exact duplicate, a higher count before a lower quorum count, or a stale "
-        "sub-quorum count after the quorum one; in order, reversed or shuffled; 8 (quick) / 40 (thorough) scenarios per rf with up to 9 / 14 deliveries, every 8th with a 52..60-transaction log whose "
+        "sub-quorum count after the quorum one; in order, reversed or shuffled; 6 (quick) / 40 (thorough) scenarios per rf with up to 8 / 14 deliveries, every 8th with a 52..60-transaction log whose "
         "first 54 transactions are confirmed first (more than one batch of 50 commits below the watermark). After the start and after EVERY delivery (once GetPartitionSequence has settled) all five "
-        "reads are asked: GetPartitionSequence, GetStreamVersion x3, ReadEvent for every position, 5 ReadPartition and 5 ReadStream requests around the current watermark. "
+        "reads are asked: GetPartitionSequence, GetStreamVersion x3, ReadEvent for every position (logs over 7 events: 8 positions around the watermark), 5 ReadPartition and 5 ReadStream requests around the current watermark. "
         "distinct = distinct case strings.")
 ASSUMPTIONS = [
     "Model/ClusterRead.v is hand-written from crates/sierradb-cluster/src/read.rs:119-249, 451-563, 596-715, 948-1103; tie = this differential run",
